@@ -134,7 +134,7 @@ class P(EngProp):
                      ("z", "nested.deep.z", [("k", "nested"), ("k", "deep"), ("k", "z")]), ("u", "[\"user.name\"]", [("k", "user.name")]), ("w", "nested", [("k", "nested")]),
                      ("nn", "n", [("k", "n")]), ("miss", "nosuch.q", [("k", "nosuch"), ("k", "q")])]
             ex = rng.sample(cands, rng.randint(1, 3))
-            lab = ["status"] if rng.random() < 0.3 else []
+            lab = rng.choice([["status"], ["\u043a\u043b\u044e\u0447"], ["status", "\u00e91"]]) if rng.random() < 0.4 else []      # plain names next to path expressions, also non-ASCII identifiers
             pipe.append(g.st_json(labels=lab, exprs=ex))
             for r, jl in zip(recs, docs):
                 exp.append((r, r["line"], None))          # labels: model-compared only (duplicate-key walks are intricate); line and count are demanded
